@@ -34,7 +34,7 @@ def gen(tier, rng):
                 frs.append(frag(sl, e))
             ninv = h
             for pol in itertools.product("BI", repeat=ninv):
-                cases.append("accum %s %s" % (",".join(frs) if frs else "-", "".join(pol) or "B"))
+                cases.append("accum %s %s %d" % (",".join(frs) if frs else "-", "".join(pol) or "B", 1 + len(cases) % 4))
     n = 2000 if tier == "quick" else 40000
     for _ in range(n):
         frs = []
@@ -43,7 +43,7 @@ def gen(tier, rng):
             sl = [bytes(rng.randrange(256) for _ in range(rng.choice([1, 1, 2, 5, 40]))) for _ in range(k)]
             frs.append(frag(sl, rng.random() < 0.35))
         pol = "".join(rng.choice("BBBI") for _ in range(rng.randrange(0, 14)))
-        cases.append("accum %s %s" % (",".join(frs), pol or "B"))
+        cases.append("accum %s %s %d" % (",".join(frs), pol or "B", rng.choice([1, 2, 3, 5, 32, 40, 41])))
     return cases
 
 
@@ -56,6 +56,8 @@ def extra_check(r):
     parts = r["case"].split()
     frs = [] if parts[1] == "-" else parts[1].split(",")
     pol = list(parts[2]) if len(parts) > 2 else []
+    if "rd=" in r["dev"] and any(not t.endswith("rd=same") for t in r["dev"].split()):
+        return ("value", "Read::read shows other bytes than fill_buf/consume for the same NAL")
     want = []
     cur = b""
     ignored = False
